@@ -1469,6 +1469,150 @@ fn sc_udp_echo_meta(rig: &mut Rig, v6: bool, _variant: usize) {
     }
 }
 
+
+// ------------------------------------------------------------------------------------------
+// the socket option "hop limit"
+// ------------------------------------------------------------------------------------------
+
+/// the values 6LoWPAN IPHC compresses (1, 64, 255) and their neighbours
+pub const HOPS: [u8; 7] = [1, 2, 63, 64, 65, 254, 255];
+
+/// variant = index into HOPS. UDP, ICMP, DNS and TCP (client and server) sockets with
+/// `set_hop_limit(Some(h))`, raw packets that carry h in their own header; one-frame and
+/// fragmented datagrams, unicast (link-local and unique-local) and multicast destinations.
+/// Every frame goes through the monitor; on 802.15.4 the hop limit a frame of these sockets
+/// DECOMPRESSES to must be h.
+fn sc_hop_limit(rig: &mut Rig, v6: bool, variant: usize) {
+    let hl = HOPS[variant];
+    rig.teach_neighbors();
+    let p = peer(v6);
+    let mut marks: Vec<(usize, &'static str)> = vec![];
+    let big = match rig.medium() {
+        Medium::Ieee802154 => 300,
+        _ if v6 => 200,
+        _ => (2 * rig.cfg.ip_mtu).min(1300),
+    };
+    // ---- UDP
+    marks.push((rig.log.len(), "udp"));
+    let u = udp_socket(rig, 7000, None);
+    rig.sockets.get_mut::<udp::Socket>(u).set_hop_limit(Some(hl));
+    let mut dsts: Vec<Vec<u8>> = vec![p.clone()];
+    if v6 {
+        dsts.push(PEER6_ULA.to_vec());
+        dsts.push(ALL_NODES6.to_vec());
+    } else {
+        dsts.push(GROUP4.to_vec());
+        dsts.push(vec![255; 4]);
+    }
+    for d in &dsts {
+        for n in [10usize, big] {
+            let _ = rig.sockets.get_mut::<udp::Socket>(u).send_slice(&pat(n, hl), IpEndpoint::new(ipa(d), 9000));
+            rig.settle();
+        }
+    }
+    // ---- ICMP echo
+    marks.push((rig.log.len(), "icmp"));
+    let mut s = icmp::Socket::new(
+        icmp::PacketBuffer::new(vec![icmp::PacketMetadata::EMPTY; 4], vec![0u8; 2048]),
+        icmp::PacketBuffer::new(vec![icmp::PacketMetadata::EMPTY; 4], vec![0u8; 2048]),
+    );
+    s.bind(icmp::Endpoint::Ident(0x1234)).unwrap();
+    s.set_hop_limit(Some(hl));
+    let ic = rig.sockets.add(s);
+    for (i, n) in [16usize, big].into_iter().enumerate() {
+        let body = echo_body(0x1234, i as u16, &pat(n, hl));
+        let msg = if v6 { icmp6(&me(v6), &p, 128, 0, &body) } else { icmp4(8, 0, body[..4].try_into().unwrap(), &body[4..]) };
+        let _ = rig.sockets.get_mut::<icmp::Socket>(ic).send_slice(&msg, ipa(&p));
+        rig.settle();
+    }
+    // ---- DNS
+    marks.push((rig.log.len(), "dns"));
+    let mut ds = dns::Socket::new(&[ipa(&p)], vec![]);
+    ds.set_hop_limit(Some(hl));
+    let dh = rig.sockets.add(ds);
+    {
+        let cx = rig.iface.context();
+        let _ = rig.sockets.get_mut::<dns::Socket>(dh).start_query(cx, "hop.example", DnsQueryType::A);
+    }
+    rig.settle();
+    // ---- TCP client
+    marks.push((rig.log.len(), "tcp"));
+    let mut ts = tcp_socket(2048, 0);
+    ts.set_hop_limit(Some(hl));
+    let th = rig.sockets.add(ts);
+    let mark = rig.log.len();
+    {
+        let cx = rig.iface.context();
+        let _ = rig.sockets.get_mut::<tcp::Socket>(th).connect(cx, IpEndpoint::new(ipa(&p), 80), 49152);
+    }
+    rig.settle();
+    if let Some(iss) = find_iss(rig, mark, 49152) {
+        let local = if v6 { rig.cfg.ll().to_vec() } else { me(v6) };
+        let mut tp = TcpPeer { me: local, peer: p.clone(), pport: 80, lport: 49152, seq: 0x2000_0000, ack: iss.wrapping_add(1), ts: false, tsval: 0 };
+        let f = tp.seg(SYN | ACK, 4096, &[2, 4, 5, 0xb4], &[]);
+        inject_from_peer(rig, &f, 0xe00);
+        tp.seq = tp.seq.wrapping_add(1);
+        let _ = rig.sockets.get_mut::<tcp::Socket>(th).send_slice(&pat(50, hl));
+        rig.settle();
+        let _ = rig.sockets.get_mut::<tcp::Socket>(th).send_slice(&pat(big.min(1000), hl));
+        rig.settle();
+        rig.sockets.get_mut::<tcp::Socket>(th).close();
+        rig.settle();
+    }
+    // ---- TCP server
+    let mut ls = tcp_socket(1024, 0);
+    ls.set_hop_limit(Some(hl));
+    ls.listen(80).unwrap();
+    rig.sockets.add(ls);
+    let local = if v6 { rig.cfg.ll().to_vec() } else { me(v6) };
+    let mut tp = TcpPeer { me: local, peer: p.clone(), pport: 4001, lport: 80, seq: 0x1000_0000, ack: 0, ts: false, tsval: 0 };
+    let syn = tp.seg(SYN, 4096, &[2, 4, 5, 0xb4], &[]);
+    inject_from_peer(rig, &syn, 0xe10);
+    // ---- raw packets carrying the hop limit in their own header
+    marks.push((rig.log.len(), "raw"));
+    let ver = if v6 { IpVersion::Ipv6 } else { IpVersion::Ipv4 };
+    let rs = raw::Socket::new(
+        Some(ver),
+        Some(IpProtocol::Udp),
+        raw::PacketBuffer::new(vec![raw::PacketMetadata::EMPTY; 4], vec![0u8; 2048]),
+        raw::PacketBuffer::new(vec![raw::PacketMetadata::EMPTY; 4], vec![0u8; 2048]),
+    );
+    let rh = rig.sockets.add(rs);
+    let src = if v6 { rig.cfg.ll().to_vec() } else { me(v6) };
+    rig.raw_tags.push((src.clone(), p.clone(), 17));
+    for n in [10usize, big.min(1000)] {
+        let l4 = udp(&src, &p, 4000, 9001, &pat(n, hl));
+        let pkt = if v6 { ipv6(&src, &p, 17, hl, &l4) } else { ipv4(&src, &p, 17, &l4, V4Opt { ttl: hl, ..V4 }) };
+        let _ = rig.sockets.get_mut::<raw::Socket>(rh).send_slice(&pkt);
+        rig.settle();
+        if rig.dead {
+            return;
+        }
+    }
+    // ---- the hop limit a receiver decompresses (802.15.4 only: on the other media the octet
+    // is on the wire as it is and outside what C10 states)
+    if rig.medium() == Medium::Ieee802154 {
+        let from = marks[0].0;
+        let mut bad = vec![];
+        for rec in &rig.log[from..] {
+            let c = &rec.verdict.class;
+            let ours = c.contains("/udp") || c.contains("/tcp") || c.contains("echo-request") || c.ends_with("/frag1");
+            if !ours {
+                continue;
+            }
+            if let Some(got) = rec.verdict.hop {
+                if got != hl {
+                    bad.push((
+                        "C10/encoding/6lowpan/decompressed-hop-limit-differs-from-the-socket-option".to_string(),
+                        format!("socket hop limit {} but the frame decompresses to hop limit {} | frame[{}] {} ({})", hl, got, rec.frame.len(), crate::sim::hex(&rec.frame), rec.verdict.shape),
+                    ));
+                }
+            }
+        }
+        rig.extra_findings.extend(bad);
+    }
+}
+
 // ------------------------------------------------------------------------------------------
 // raw sockets
 // ------------------------------------------------------------------------------------------
@@ -1578,6 +1722,7 @@ pub fn scenarios() -> Vec<Scenario> {
         Scenario { name: "mld", variants: 2, setup: v6_only, run: sc_mld },
         Scenario { name: "igmp", variants: 2, setup: igmp_setup, run: sc_igmp },
         Scenario { name: "dhcp-client", variants: 3, setup: dhcp_setup, run: sc_dhcp },
+        Scenario { name: "socket-hop-limit", variants: 7, setup: std_setup, run: sc_hop_limit },
         Scenario { name: "renumbering", variants: 18, setup: renumber_setup, run: sc_renumber },
         Scenario { name: "udp-echo-of-received-metadata", variants: 1, setup: std_setup, run: sc_udp_echo_meta },
         Scenario { name: "dhcp-renewal-changes-lease", variants: 5, setup: dhcp_setup, run: sc_dhcp_renew_changes },
